@@ -1,13 +1,464 @@
 /-
-  Property C06 — PLACEHOLDER while the full theorem file (lean/stmts/C06.lean.txt) is being proved.
+  Property C06 — administrative operations need the current role holder's authorisation.
+  Statements are FIXED: prove them exactly as stated (helper lemmas go above them or in Cgp/Proofs/C06.lean).
+  In every model `auths` is the set of addresses that authorised exactly this call: success REQUIRES the current holder.
 -/
 import Cgp.Token
+import Cgp.GasService
+import Cgp.GatewayOps
+import Cgp.ItsOps
+import Cgp.Operators
+import Cgp.Upgradable
+import Cgp.Proofs.C06
 namespace Cgp.Props.C06
 open Cgp Cgp.Xdr
 
-theorem token_refused_unchanged (st : Token.State) (c : Token.Ctx) (op : Token.Op) (e : Token.Err)
-    (h : (Token.step st c op).2 = .error e) : (Token.step st c op).1 = st := by
-  simp only [Token.step] at h ⊢
-  split <;> simp_all
+/-! ### gateway: owner, operator, bypass rotation -/
+
+section
+variable (H : Bytes → Bytes) {σ : Type} (V : Bytes → Bytes → σ → Bool)
+
+theorem gateway_admin_needs_holder (st : Gateway.State) (auths : List Addr) (new : Addr) (ws : Gateway.WSigners)
+    (proof : Gateway.Proof σ) (now : Nat) :
+    ((∃ r, Gateway.transferOwnership st auths new = .ok r) → st.owner ∈ auths) ∧
+    ((∃ r, Gateway.transferOperatorship st auths new = .ok r) → st.operator ∈ auths) ∧
+    ((∃ r, Gateway.rotateSigners H V st auths ws proof true now = .ok r) → st.operator ∈ auths) := by
+  refine ⟨?_, ?_, ?_⟩
+  · rintro ⟨r, h⟩
+    exact (Cgp.Proofs.C06.Gw.transferOwnership_inv _ _ _ _ h).1
+  · rintro ⟨r, h⟩
+    exact (Cgp.Proofs.C06.Gw.transferOperatorship_inv _ _ _ _ h).1
+  · rintro ⟨r, h⟩
+    exact (Cgp.Proofs.C06.Gw.rotate_inv H V _ _ _ _ _ _ _ h).1 rfl
+
+/-- the owner changes only through a transfer authorised by the CURRENT owner, and then is exactly the named successor -/
+theorem gateway_owner_step (w : Gateway.World) (op : Gateway.Op σ) :
+    (Gateway.step H V w op).1.st.owner = w.st.owner ∨
+    (∃ auths new, op = .transferOwnership auths new ∧ w.st.owner ∈ auths ∧ (Gateway.step H V w op).1.st.owner = new) := by
+  cases op with
+  | approve ms proof =>
+    left; simp only [Gateway.step]
+    cases hr : Gateway.approveMessages H V w.st ms proof with
+    | error e => rfl
+    | ok r => exact Cgp.Proofs.C06.Gw.approveMessages_owner H V _ _ _ _ hr
+  | rotate auths ws proof bypass =>
+    left; simp only [Gateway.step]
+    cases hr : Gateway.rotateSigners H V w.st auths ws proof bypass w.now with
+    | error e => rfl
+    | ok r => exact (Cgp.Proofs.C06.Gw.rotate_inv H V _ _ _ _ _ _ _ hr).2
+  | validateMessage auths caller chain id src ph =>
+    left; simp only [Gateway.step]
+    cases hr : Gateway.validateMessage H w.st auths caller chain id src ph with
+    | error e => rfl
+    | ok r => exact Cgp.Proofs.C06.Gw.validateMessage_owner H _ _ _ _ _ _ _ _ hr
+  | callContract auths caller chain dest payload =>
+    left; simp only [Gateway.step]
+    cases hr : Gateway.callContract H w.st auths caller chain dest payload with
+    | error e => rfl
+    | ok r => exact Cgp.Proofs.C06.Gw.callContract_owner H _ _ _ _ _ _ _ hr
+  | transferOwnership auths new =>
+    simp only [Gateway.step]
+    cases hr : Gateway.transferOwnership w.st auths new with
+    | error e => left; rfl
+    | ok r =>
+      have := Cgp.Proofs.C06.Gw.transferOwnership_inv _ _ _ _ hr
+      exact Or.inr ⟨auths, new, rfl, this.1, this.2⟩
+  | transferOperatorship auths new =>
+    left; simp only [Gateway.step]
+    cases hr : Gateway.transferOperatorship w.st auths new with
+    | error e => rfl
+    | ok r => exact (Cgp.Proofs.C06.Gw.transferOperatorship_inv _ _ _ _ hr).2
+  | setTime t => left; rfl
+
+/-- holder implied by a history: the successor named by the last successful transfer, else the initial holder -/
+def gwOwnerAfter (init : Addr) : List (Gateway.Op σ) → List Gateway.Obs → Addr
+  | (.transferOwnership _ new) :: ops, (.ok _) :: os => gwOwnerAfter new ops os
+  | _ :: ops, _ :: os => gwOwnerAfter init ops os
+  | _, _ => init
+
+/-- one step of the history function agrees with one step of the model -/
+theorem gwOwnerAfter_step (w : Gateway.World) (op : Gateway.Op σ) (ops : List (Gateway.Op σ)) (os : List Gateway.Obs) :
+    gwOwnerAfter w.st.owner (op :: ops) ((Gateway.step H V w op).2 :: os) =
+      gwOwnerAfter (Gateway.step H V w op).1.st.owner ops os := by
+  cases op with
+  | approve ms proof =>
+    simp only [Gateway.step]
+    cases hr : Gateway.approveMessages H V w.st ms proof with
+    | error e => simp [gwOwnerAfter]
+    | ok r => simp [gwOwnerAfter, Cgp.Proofs.C06.Gw.approveMessages_owner H V _ _ _ _ hr]
+  | rotate auths ws proof bypass =>
+    simp only [Gateway.step]
+    cases hr : Gateway.rotateSigners H V w.st auths ws proof bypass w.now with
+    | error e => simp [gwOwnerAfter]
+    | ok r => simp [gwOwnerAfter, (Cgp.Proofs.C06.Gw.rotate_inv H V _ _ _ _ _ _ _ hr).2]
+  | validateMessage auths caller chain id src ph =>
+    simp only [Gateway.step]
+    cases hr : Gateway.validateMessage H w.st auths caller chain id src ph with
+    | error e => simp [gwOwnerAfter]
+    | ok r => simp [gwOwnerAfter, Cgp.Proofs.C06.Gw.validateMessage_owner H _ _ _ _ _ _ _ _ hr]
+  | callContract auths caller chain dest payload =>
+    simp only [Gateway.step]
+    cases hr : Gateway.callContract H w.st auths caller chain dest payload with
+    | error e => simp [gwOwnerAfter]
+    | ok r => simp [gwOwnerAfter, Cgp.Proofs.C06.Gw.callContract_owner H _ _ _ _ _ _ _ hr]
+  | transferOwnership auths new =>
+    simp only [Gateway.step]
+    cases hr : Gateway.transferOwnership w.st auths new with
+    | error e => simp [gwOwnerAfter]
+    | ok r => simp [gwOwnerAfter, (Cgp.Proofs.C06.Gw.transferOwnership_inv _ _ _ _ hr).2]
+  | transferOperatorship auths new =>
+    simp only [Gateway.step]
+    cases hr : Gateway.transferOperatorship w.st auths new with
+    | error e => simp [gwOwnerAfter]
+    | ok r => simp [gwOwnerAfter, (Cgp.Proofs.C06.Gw.transferOperatorship_inv _ _ _ _ hr).2]
+  | setTime t => simp [Gateway.step, gwOwnerAfter]
+
+theorem gateway_owner_after_history (w : Gateway.World) (ops : List (Gateway.Op σ)) :
+    (Gateway.run H V w ops).1.st.owner = gwOwnerAfter w.st.owner ops (Gateway.run H V w ops).2 := by
+  induction ops generalizing w with
+  | nil => simp [Gateway.run, gwOwnerAfter]
+  | cons op ops ih =>
+    rw [Cgp.Proofs.C06.Gw.run_cons]
+    simp only
+    rw [ih (Gateway.step H V w op).1]
+    exact (gwOwnerAfter_step H V w op ops _).symm
+
+theorem gateway_refused_unchanged (w : Gateway.World) (op : Gateway.Op σ) (e : Gateway.Err)
+    (h : (Gateway.step H V w op).2 = .err e) : (Gateway.step H V w op).1 = w := by
+  cases op <;> simp only [Gateway.step] at h ⊢ <;> first | cases h | (split at h <;> first | rfl | cases h)
+end
+
+/-! ### gas service: owner; the gas collector -/
+
+theorem gas_admin_needs_holder (st : GasService.State) (auths : List Addr) (new receiver token : Addr) (amount : Int) (msgId : Bytes) :
+    ((∃ r, GasService.transferOwnership st auths new = .ok r) → st.owner ∈ auths) ∧
+    ((∃ r, GasService.collectFees st auths receiver token amount = .ok r) → st.collector ∈ auths) ∧
+    ((∃ r, GasService.refund st auths msgId receiver token amount = .ok r) → st.collector ∈ auths) := by
+  refine ⟨?_, ?_, ?_⟩
+  · rintro ⟨r, h⟩
+    unfold GasService.transferOwnership at h
+    split at h
+    · cases h
+    · rename_i hc; simpa using hc
+  · rintro ⟨⟨st', evs⟩, h⟩
+    exact (Cgp.Props.C14.collectFees_inv h).1
+  · rintro ⟨⟨st', evs⟩, h⟩
+    exact (Cgp.Props.C14.refund_inv h).1
+
+theorem gas_roles_step (H : Bytes → Bytes) (st : GasService.State) (op : GasService.Op) :
+    (GasService.step H st op).1.collector = st.collector ∧
+    ((GasService.step H st op).1.owner = st.owner ∨
+     (∃ auths new, op = .transferOwnership auths new ∧ st.owner ∈ auths ∧ (GasService.step H st op).1.owner = new)) := by
+  unfold GasService.step
+  cases hr : GasService.apply H st op with
+  | error e => exact ⟨rfl, Or.inl rfl⟩
+  | ok r =>
+    obtain ⟨st', evs⟩ := r
+    simp only
+    cases op with
+    | payGas au s c d p sp t a m =>
+      simp only [GasService.apply] at hr
+      obtain ⟨-, -, -, b, -, rfl⟩ := Cgp.Props.C14.payGas_inv hr
+      exact ⟨rfl, Or.inl rfl⟩
+    | addGas au s i sp t a =>
+      simp only [GasService.apply] at hr
+      obtain ⟨-, -, -, b, -, rfl⟩ := Cgp.Props.C14.addGas_inv hr
+      exact ⟨rfl, Or.inl rfl⟩
+    | collectFees au r t a =>
+      simp only [GasService.apply] at hr
+      obtain ⟨-, -, -, b, -, rfl⟩ := Cgp.Props.C14.collectFees_inv hr
+      exact ⟨rfl, Or.inl rfl⟩
+    | refund au i r t a =>
+      simp only [GasService.apply] at hr
+      obtain ⟨-, -, b, -, rfl⟩ := Cgp.Props.C14.refund_inv hr
+      exact ⟨rfl, Or.inl rfl⟩
+    | transferOwnership au n =>
+      simp only [GasService.apply] at hr
+      have hown : st.owner ∈ au := by
+        unfold GasService.transferOwnership at hr
+        split at hr
+        · cases hr
+        · rename_i hc; simpa using hc
+      have := Cgp.Props.C14.transferOwnership_inv hr
+      subst this
+      exact ⟨rfl, Or.inr ⟨au, n, rfl, hown, rfl⟩⟩
+    | userTransfer t s d a au =>
+      obtain ⟨-, -, b, -, rfl⟩ := Cgp.Props.C14.userTransfer_inv hr
+      exact ⟨rfl, Or.inl rfl⟩
+    | adminMint t d a =>
+      obtain ⟨-, b, -, rfl⟩ := Cgp.Props.C14.adminMint_inv hr
+      exact ⟨rfl, Or.inl rfl⟩
+
+/-! ### operators contract -/
+
+theorem operators_admin_needs_owner (st : Operators.State) (auths : List Addr) (a : Addr) :
+    ((∃ r, Operators.addOperator st auths a = .ok r) → st.owner ∈ auths) ∧
+    ((∃ r, Operators.removeOperator st auths a = .ok r) → st.owner ∈ auths) ∧
+    ((∃ r, Operators.transferOwnership st auths a = .ok r) → st.owner ∈ auths) := by
+  refine ⟨?_, ?_, ?_⟩
+  · rintro ⟨r, h⟩
+    unfold Operators.addOperator at h
+    split at h
+    · cases h
+    · rename_i hc; simpa using hc
+  · rintro ⟨r, h⟩
+    unfold Operators.removeOperator at h
+    split at h
+    · cases h
+    · rename_i hc; simpa using hc
+  · rintro ⟨r, h⟩
+    unfold Operators.transferOwnership at h
+    split at h
+    · cases h
+    · rename_i hc; simpa using hc
+
+theorem operators_owner_step {τ : Type} (tgt : Operators.Target τ) (w : Operators.World τ) (op : Operators.Op) :
+    (Operators.step tgt w op).1.st.owner = w.st.owner ∨
+    (∃ auths new, op = .transferOwnership auths new ∧ w.st.owner ∈ auths ∧ (Operators.step tgt w op).1.st.owner = new) := by
+  cases op with
+  | add au a =>
+    left; simp only [Operators.step]
+    cases hr : Operators.addOperator w.st au a with
+    | error e => rfl
+    | ok r =>
+      unfold Operators.addOperator at hr
+      split at hr
+      · cases hr
+      · split at hr
+        · cases hr
+        · cases hr; rfl
+  | remove au a =>
+    left; simp only [Operators.step]
+    cases hr : Operators.removeOperator w.st au a with
+    | error e => rfl
+    | ok r =>
+      unfold Operators.removeOperator at hr
+      split at hr
+      · cases hr
+      · split at hr
+        · cases hr
+        · cases hr; rfl
+  | transferOwnership au n =>
+    simp only [Operators.step]
+    cases hr : Operators.transferOwnership w.st au n with
+    | error e => left; rfl
+    | ok r =>
+      unfold Operators.transferOwnership at hr
+      split at hr
+      · cases hr
+      · rename_i hc
+        cases hr
+        exact Or.inr ⟨au, n, rfl, by simpa using hc, rfl⟩
+  | execute au o c f args =>
+    left; simp only [Operators.step]
+    cases hr : Operators.execute tgt w.self w.st w.ts au o c f args with
+    | error e => rfl
+    | ok r => rfl
+
+/-! ### interchain token service -/
+
+theorem its_admin_needs_owner (st : Its.State) (auths : List Addr) (c : Bytes) (new : Addr) :
+    ((∃ r, Its.setTrustedChain st auths c = .ok r) → st.owner ∈ auths) ∧
+    ((∃ r, Its.removeTrustedChain st auths c = .ok r) → st.owner ∈ auths) ∧
+    ((∃ r, Its.transferOwnership st auths new = .ok r) → st.owner ∈ auths) := by
+  refine ⟨?_, ?_, ?_⟩
+  · rintro ⟨r, h⟩
+    unfold Its.setTrustedChain at h
+    split at h
+    · cases h
+    · rename_i hc; simpa using hc
+  · rintro ⟨r, h⟩
+    unfold Its.removeTrustedChain at h
+    split at h
+    · cases h
+    · rename_i hc; simpa using hc
+  · rintro ⟨r, h⟩
+    unfold Its.transferOwnership at h
+    split at h
+    · cases h
+    · rename_i hc; simpa using hc
+
+/-- trusted chains and the owner change only through the owner's authorised calls -/
+theorem its_roles_step (H S : Bytes → Bytes) (k : Its.Consts) (st : Its.State) (op : Its.Op) :
+    ((Its.step H S k st op).1.trusted = st.trusted ∧ (Its.step H S k st op).1.owner = st.owner) ∨
+    (∃ auths, st.owner ∈ auths ∧
+      ((∃ c, op = .setTrusted auths c) ∨ (∃ c, op = .removeTrusted auths c) ∨ (∃ new, op = .transferOwnership auths new))) := by
+  have hadm := its_admin_needs_owner st
+  cases op with
+  | setTrusted au c =>
+    simp only [Its.step]
+    cases hr : Its.setTrustedChain st au c with
+    | error e => left; exact ⟨rfl, rfl⟩
+    | ok r => exact Or.inr ⟨au, (hadm au c st.owner).1 ⟨r, hr⟩, Or.inl ⟨c, rfl⟩⟩
+  | removeTrusted au c =>
+    simp only [Its.step]
+    cases hr : Its.removeTrustedChain st au c with
+    | error e => left; exact ⟨rfl, rfl⟩
+    | ok r => exact Or.inr ⟨au, (hadm au c st.owner).2.1 ⟨r, hr⟩, Or.inr (Or.inl ⟨c, rfl⟩)⟩
+  | transferOwnership au n =>
+    simp only [Its.step]
+    cases hr : Its.transferOwnership st au n with
+    | error e => left; exact ⟨rfl, rfl⟩
+    | ok r => exact Or.inr ⟨au, (hadm au [] n).2.2 ⟨r, hr⟩, Or.inr (Or.inr ⟨n, rfl⟩)⟩
+  | deploy au ca sa n sy d su m =>
+    left; simp only [Its.step]
+    exact Cgp.Proofs.C06.ItsL.wrapId_same _ _
+      (fun x hx => Cgp.Proofs.C06.ItsL.deployInterchainToken_same H S k _ _ _ _ _ _ _ _ _ _ hx)
+  | registerCanonical t =>
+    left; simp only [Its.step]
+    exact Cgp.Proofs.C06.ItsL.wrapId_same _ _
+      (fun x hx => Cgp.Proofs.C06.ItsL.registerCanonical_same H k _ _ _ hx)
+  | deployRemote au ca sa de gt ga =>
+    left; simp only [Its.step]
+    refine Cgp.Proofs.C06.ItsL.wrapId_same _ _ (fun x hx => ?_)
+    unfold Its.deployRemoteInterchainToken at hx
+    split at hx
+    · cases hx
+    · exact Cgp.Proofs.C06.ItsL.deployRemoteToken_same H k _ _ _ _ _ _ _ _ hx
+  | deployRemoteCanonical au t de sp gt ga =>
+    left; simp only [Its.step]
+    refine Cgp.Proofs.C06.ItsL.wrapId_same _ _ (fun x hx => ?_)
+    unfold Its.deployRemoteCanonicalToken at hx
+    exact Cgp.Proofs.C06.ItsL.deployRemoteToken_same H k _ _ _ _ _ _ _ _ hx
+  | transfer au ca ti de da am dt gt ga =>
+    left; simp only [Its.step]
+    exact Cgp.Proofs.C06.ItsL.wrapEv_same _ _
+      (fun x hx => Cgp.Proofs.C06.ItsL.interchainTransfer_same H k _ _ _ _ _ _ _ _ _ _ _ hx)
+  | execute c i sa p =>
+    left; simp only [Its.step]
+    exact Cgp.Proofs.C06.ItsL.wrapEv_same _ _
+      (fun x hx => Cgp.Proofs.C06.ItsL.execute_same H S k _ _ _ _ _ _ hx)
+  | gateway f => left; exact ⟨rfl, rfl⟩
+  | userTransfer t s d a au =>
+    left; simp only [Its.step]
+    split
+    · exact ⟨rfl, rfl⟩
+    · split
+      · rename_i st' htt
+        exact Cgp.Proofs.C06.ItsL.tokTransfer_same _ _ _ _ _ _ _ htt
+      · exact ⟨rfl, rfl⟩
+  | minterMint t m d a au =>
+    left; simp only [Its.step]
+    split
+    · split
+      · exact ⟨rfl, rfl⟩
+      · exact ⟨rfl, rfl⟩
+    · exact ⟨rfl, rfl⟩
+
+/-! ### token: owner, minters, owner minting -/
+
+theorem token_admin_needs_owner (st : Token.State) (c : Token.Ctx) (m to new : Addr) (amount : Int) :
+    ((∃ r, Token.addMinter st c m = .ok r) → st.owner ∈ c.auths) ∧
+    ((∃ r, Token.removeMinter st c m = .ok r) → st.owner ∈ c.auths) ∧
+    ((∃ r, Token.mint st c to amount = .ok r) → st.owner ∈ c.auths ∧ st.minter st.owner = true) ∧
+    ((∃ r, Token.transferOwnership st c new = .ok r) → st.owner ∈ c.auths) := by
+  refine ⟨?_, ?_, ?_, ?_⟩
+  · rintro ⟨r, h⟩
+    unfold Token.addMinter at h
+    split at h
+    · cases h
+    · rename_i hc; simpa using hc
+  · rintro ⟨r, h⟩
+    unfold Token.removeMinter at h
+    split at h
+    · cases h
+    · rename_i hc; simpa using hc
+  · rintro ⟨r, h⟩
+    unfold Token.mint Token.mintFrom at h
+    split at h
+    · cases h
+    · rename_i hc
+      split at h
+      · cases h
+      · rename_i hm
+        exact ⟨by simpa using hc, by simpa using hm⟩
+  · rintro ⟨r, h⟩
+    unfold Token.transferOwnership at h
+    split at h
+    · cases h
+    · rename_i hc; simpa using hc
+
+theorem token_owner_step (st : Token.State) (c : Token.Ctx) (op : Token.Op) :
+    (Token.step st c op).1.owner = st.owner ∨
+    (∃ new, op = .transferOwnership new ∧ st.owner ∈ c.auths ∧ (Token.step st c op).1.owner = new) := by
+  unfold Token.step
+  cases hr : Token.apply st c op with
+  | error e => left; rfl
+  | ok r =>
+    obtain ⟨st', evs⟩ := r
+    exact Cgp.Proofs.C06.Tk.apply_owner _ _ _ _ _ hr
+
+/-! ### upgrades and migrations -/
+
+theorem upgrade_admin_needs_owner (codes : Upgradable.Codes) (c : Upgradable.Contract) (auths am : List Addr) (h nv : Bytes)
+    (d : List ScVal) (new : Addr) :
+    ((∃ r, Upgradable.upgrade codes c auths h = .ok r) → c.owner ∈ auths) ∧
+    ((∃ r, Upgradable.migrate c auths d = .ok r) → c.owner ∈ auths) ∧
+    ((∃ r, Upgradable.upgraderUpgrade codes c auths am nv h d = .ok r) → c.owner ∈ auths ∧ c.owner ∈ am) ∧
+    ((∃ r, Upgradable.transferOwnership c auths new = .ok r) → c.owner ∈ auths) := by
+  refine ⟨?_, ?_, ?_, ?_⟩
+  · rintro ⟨r, hh⟩
+    exact (Cgp.Props.C15.upgrade_ok hh).1
+  · rintro ⟨⟨c', evs⟩, hh⟩
+    exact (Cgp.Props.C15.migrate_ok hh).2.1
+  · rintro ⟨⟨c', evs⟩, hh⟩
+    obtain ⟨-, c1, hu, hm, -⟩ := Cgp.Props.C15.upgrader_ok hh
+    obtain ⟨ho, code, -, rfl⟩ := Cgp.Props.C15.upgrade_ok hu
+    exact ⟨ho, (Cgp.Props.C15.migrate_ok hm).2.1⟩
+  · rintro ⟨r, hh⟩
+    exact (Cgp.Props.C15.transfer_ok hh).1
+
+theorem upgradable_owner_step (codes : Upgradable.Codes) (c : Upgradable.Contract) (op : Upgradable.Op) :
+    (Upgradable.step codes c op).1.owner = c.owner ∨
+    (∃ auths new, op = .transferOwnership auths new ∧ c.owner ∈ auths ∧ (Upgradable.step codes c op).1.owner = new) := by
+  cases op with
+  | upgrade au h =>
+    left; simp only [Upgradable.step]
+    cases hr : Upgradable.upgrade codes c au h with
+    | error e => rfl
+    | ok r =>
+      obtain ⟨-, code, -, rfl⟩ := Cgp.Props.C15.upgrade_ok hr
+      rfl
+  | migrate au d =>
+    left; simp only [Upgradable.step]
+    cases hr : Upgradable.migrate c au d with
+    | error e => rfl
+    | ok r =>
+      obtain ⟨c', evs⟩ := r
+      exact Cgp.Proofs.C06.Up.migrate_owner hr
+  | viaUpgrader au am v h d =>
+    left; simp only [Upgradable.step]
+    cases hr : Upgradable.upgraderUpgrade codes c au am v h d with
+    | error e => rfl
+    | ok r =>
+      obtain ⟨c', evs⟩ := r
+      obtain ⟨-, c1, hu, hm, -⟩ := Cgp.Props.C15.upgrader_ok hr
+      obtain ⟨-, code, -, rfl⟩ := Cgp.Props.C15.upgrade_ok hu
+      exact (Cgp.Proofs.C06.Up.migrate_owner hm).trans rfl
+  | transferOwnership au n =>
+    simp only [Upgradable.step]
+    cases hr : Upgradable.transferOwnership c au n with
+    | error e => left; rfl
+    | ok r =>
+      obtain ⟨ho, rfl⟩ := Cgp.Props.C15.transfer_ok hr
+      exact Or.inr ⟨au, n, rfl, ho, rfl⟩
+
+/-- a former holder has no power: after a successful transfer to somebody else, the previous owner's authorisation alone
+    no longer suffices for any owner-only operation of the token (the same argument applies to every contract, since each
+    check reads the CURRENT holder) -/
+theorem former_owner_refused (st st' : Token.State) (c c' : Token.Ctx) (new m : Addr) (evs : List Token.Event)
+    (h : Token.transferOwnership st c new = .ok (st', evs)) (hne : new ≠ st.owner) (hc : c'.auths = [st.owner]) :
+    (∃ e, Token.addMinter st' c' m = .error e) ∧ (∃ e, Token.removeMinter st' c' m = .error e) ∧
+    (∃ e, Token.transferOwnership st' c' m = .error e) := by
+  unfold Token.transferOwnership at h
+  split at h
+  · cases h
+  · cases h
+    have hno : new ∉ c'.auths := by
+      rw [hc]; simpa using hne
+    refine ⟨?_, ?_, ?_⟩
+    · exact ⟨_, by unfold Token.addMinter; rw [if_pos hno]⟩
+    · exact ⟨_, by unfold Token.removeMinter; rw [if_pos hno]⟩
+    · exact ⟨_, by unfold Token.transferOwnership; rw [if_pos hno]⟩
 
 end Cgp.Props.C06
